@@ -34,5 +34,6 @@ func runC05(r *hk.Run) {
 	runH3Fields(r, rng.Fork())
 	runEncoders(r, rng.Fork())
 	runRequestWriter(r, rng.Fork())
+	runH2EncoderSeq(r, rng.Fork())
 	runHeaderMap(r, rng.Fork())
 }
